@@ -15,6 +15,7 @@ from vlib.tr_preload import tr_preload
 from vlib import preload as pl
 
 PROP = "C18"
+KINDS = "E"      # which of the extracted spec checkers this property evaluates (E: enable/enable/status, D: disable, R: round trip)
 OPS = "ees"
 
 
@@ -39,10 +40,10 @@ def check(run):
     corp = pl.corpus_cases(PROP)
     ex, small, rnd = gen(run)
     s_cases = corp + [c for c in ex if len(c) < 260][:1200] + small + rnd      # sanitizer build: corpus, smallest files, other path, random
-    r1 = pl.evaluate(run, asan, s_cases, "san")
-    nv = pl.report(run, PROP, r1, "san", asan)
-    r2 = pl.evaluate(run, plain, ex, "exh")
-    nv += pl.report(run, PROP, r2, "exhaustive", plain) if not nv else 0
+    r1 = pl.evaluate(run, asan, s_cases, "san", KINDS)
+    nv = pl.report(run, PROP, r1, "san", asan, KINDS)
+    r2 = pl.evaluate(run, plain, ex, "exh", KINDS)
+    nv += pl.report(run, PROP, r2, "exhaustive", plain, KINDS) if not nv else 0
     mism = r1["mismatch"] + r2["mismatch"]
     if not ok and nv == 0:
         run.violation("proof:%s" % failed, "proof", "proof obligation no longer checks: %s\n%s" % (failed, log[-1500:]), {"theorem": failed, "coq_log": log[-3000:]})
@@ -80,4 +81,4 @@ def check(run):
 
 
 def replay(run, path):
-    return pl.replay_cases(run, PROP, path)
+    return pl.replay_cases(run, PROP, path, KINDS)
